@@ -36,10 +36,10 @@ func init() {
 	reg("raw/msgpack-value", ruleRaw, 6000, 6000, 2, facet.F[Input]{Gen: genRaw("msgpack", []string{DMsgpackValue})}, false)
 	reg("raw/msgpack-implied", ruleRaw, 6000, 6000, 2, facet.F[Input]{Gen: genRaw("msgpack", []string{DMsgpackImplied})}, false)
 
-	reg("mem/json-value", ruleMem, 1200, 1200, 2, facet.F[Input]{Gen: genMem(DJSONValue)}, false)
-	reg("mem/json-type", ruleMem, 1200, 1200, 2, facet.F[Input]{Gen: genMem(DJSONType)}, false)
-	reg("mem/json-implied", ruleMem, 1200, 1200, 2, facet.F[Input]{Gen: genMem(DJSONImplied)}, false)
-	reg("mem/msgpack-value", ruleMem, 1200, 1200, 2, facet.F[Input]{Gen: genMem(DMsgpackValue)}, false)
-	reg("mem/msgpack-implied", ruleMem, 1200, 1200, 2, facet.F[Input]{Gen: genMem(DMsgpackImplied)}, false)
+	reg("mem/json-value", ruleMem, 600, 1200, 2, facet.F[Input]{Gen: genMem(DJSONValue, 16)}, false)
+	reg("mem/json-type", ruleMem, 400, 1200, 2, facet.F[Input]{Gen: genMem(DJSONType, 64)}, false)
+	reg("mem/json-implied", ruleMem, 1200, 1200, 2, facet.F[Input]{Gen: genMem(DJSONImplied, 4)}, false)
+	reg("mem/msgpack-value", ruleMem, 1200, 1200, 2, facet.F[Input]{Gen: genMem(DMsgpackValue, 4)}, false)
+	reg("mem/msgpack-implied", ruleMem, 1200, 1200, 2, facet.F[Input]{Gen: genMem(DMsgpackImplied, 4)}, false)
 	_ = mf{}
 }
